@@ -109,6 +109,14 @@ func runHistory(c *core.Ctx, calls []int, kind string) {
 		c.Violation("shared-Patch-modified", map[string]any{"history_kind": kind, "why": why, "calls": desc(len(calls) - 1)})
 		return
 	}
+	if why := p.CheckOptions(); why != "" {
+		c.Violation("shared-ApplyOptions-modified", map[string]any{"history_kind": kind, "why": why, "calls": desc(len(calls) - 1)})
+		// restore, so that the rest of the run is judged against the alone results again
+		for i := range p.shared {
+			*p.shared[i] = p.sharedS[i]
+		}
+		return
+	}
 	if why := p.CheckInputs(); why != "" {
 		c.Violation("input-buffer-modified", map[string]any{"history_kind": kind, "why": why})
 		return
